@@ -31,7 +31,8 @@ REGISTRATION = {
             "causal cache; a layout observed after a defrag is adopted only if the model's own check relocOK accepts it, "
             "so there is no assumption about the hints); every token a processBatch pass samples is the scripted model's "
             "answer to record ++ pending of its slot, i.e. what a fresh runner is shown (processBatch_outputs, "
-            "ideal_is_fresh; per pass, chained over a generation only by L2 fresh-equiv); NewSequence truncation (newSequence_spec), "
+            "ideal_is_fresh; per pass); chained over a whole generation without overflow for the forward/sample/feed-back "
+            "loop on any coherent cache (gen_ideal, fresh_equiv_generation) and by L2 fresh-equiv on the real code; NewSequence truncation (newSequence_spec), "
             "shift-frees-room (shift_ok_shape) and the record cut next to TruncateStop (stop_cut_record; L2 stop-cut) are "
             "theorems. Records of different slots never share "
             "storage (load/forward/shift leave every other slot unchanged: theorems; record-aliasing monitors on "
@@ -94,6 +95,8 @@ THEOREMS = [
     "OllamaVerif.C07.processBatch_SInv",
     "OllamaVerif.C07.processBatch_outputs",
     "OllamaVerif.C07.ideal_is_fresh",
+    "OllamaVerif.C07.gen_ideal",
+    "OllamaVerif.C07.fresh_equiv_generation",
     "OllamaVerif.C07.runEvent_SInv",
     "OllamaVerif.C07.runEvents_SInv",
     "OllamaVerif.C07.SInv_init",
@@ -310,8 +313,10 @@ def run(ctx):
         "caches: not proved as an invariant there",
         "stop_cut_record assumes the record ends with the tokens of the held-back pieces (true unless a context shift "
         "discarded them; then Go's slice expression may panic: outside C07)",
-        "fresh-runner equivalence is a theorem per Forward (fresh_equiv_tokens) on any coherent cache; chained over a "
-        "whole generation only by the L2 monitor fresh-equiv",
+        "fresh-runner equivalence: per processBatch pass for the executable model (processBatch_outputs); over a whole "
+        "generation (fresh_equiv_generation) for the relation Gen = Forward / sample last position / feed back on a "
+        "coherent cache with no overflow in between, not for several processBatch passes of the executable model (that "
+        "link is the L2 monitor fresh-equiv)",
         "llamarunner: slot selection/fork/ShiftDiscard real over histories; LoadCacheSlot/ShiftCacheSlot statements "
         "replayed by the driver; llama.cpp's KV cache is a shadow (modelled, not verified)",
     ]
